@@ -26,17 +26,13 @@ def applyOp (op : Op) (a b : Val) : Out Val :=
     match exactNum a, exactNum b with
     | some x, some y => if y == 0 then .throw else .ok (mkNum (isRatVal a || isRatVal b) (ratFloor (x / y)))
     | _, _ => .throw
-  | .append =>
-    match a with
-    | .list xs => .ok (.list (xs ++ [b]))
-    | _ => .throw
-  | .prepend =>
-    match b with
-    | .list ys => .ok (.list (a :: ys))
-    | _ => .throw
+  | .append => construct .append [a, b]
+  | .prepend => construct .prepend [a, b]
   | .concat =>
     match a, b with
     | .list xs, .list ys => .ok (.list (xs ++ ys))
+    | .vector xs, .vector ys => .ok (.vector (xs ++ ys))
+    | .bytes xs, .bytes ys => .ok (.bytes (xs ++ ys))
     | _, _ => .throw
 
 /-- number of fields of the struct with this id (the structs the differential run declares:
